@@ -139,7 +139,7 @@ def source_digest():
                         h.update(open(p, 'rb').read())
         h.update(open(os.path.join(common.HERE, 'known_findings.json'), 'rb').read())       # listed regions shape the proofs
         h.update(getattr(cryptodatahub, '__version__', '?').encode())
-        h.update(repr((ITEM_BOUND, LOOP_BOUND, E.RLIMIT_BRANCH, E.RLIMIT_GOAL)).encode())
+        h.update(repr((ITEM_BOUND, LOOP_BOUND, E.RLIMIT_BRANCH, E.RLIMIT_GOAL, os.environ.get('VERIF_CVC5_SAMPLE', ''))).encode())
         _DIGEST = h.hexdigest()[:24]
     return _DIGEST
 
